@@ -170,6 +170,9 @@ func (e *Engine) get(st *State, comp string) Term {
 		st.heap[comp] = n
 		return n
 	}
+	if strings.HasPrefix(comp, "$rng$") {
+		return "0" // the Range instruction has not run on this path: no live iterator
+	}
 	return sym(comp + "@0")
 }
 
@@ -934,6 +937,14 @@ func (fr *Frame) enterLoop(h *ssa.BasicBlock, edges []edgeIn, dry bool) *State {
 	for _, c := range sortedKeys(fr.loopMods[h]) {
 		if c == "$alloc" {
 			continue
+		}
+		if strings.HasPrefix(c, "$rng$") {
+			if own := fr.rangeOfLoop(h); own == nil || own.ctrComp != c {
+				// iterator of a range nested in this loop: at this loop's head it is not live (a new
+				// Range instruction creates a new iterator), so it does not constrain map mutation
+				hst.heap[c] = "0"
+				continue
+			}
 		}
 		hst.heap[c] = vc.fresh("lh$"+c, e.compSort[c])
 		e.nilMapEmpty(c, hst.heap[c])
